@@ -109,7 +109,10 @@ func c08grammars(quick bool) []func() *recGrammar {
 			// satisfied by the value of a capture that matched nothing, the EOF token, the empty literal
 			func() *g.Node { return g.Grp(gfam.CapMark(g.Grp(g.Lit("x"), '?')), '!') },
 			func() *g.Node { return g.Ref("EOF") },
-			func() *g.Node { return g.Lit("") })
+			func() *g.Node { return g.Lit("") },
+			// an explicitly named elided token: consuming it is progress although the ordinary-token cursor stands still
+			func() *g.Node { return g.Ref("Space") },
+			func() *g.Node { return g.Alt(g.Ref("Space"), g.Lit("x")) })
 		var ts []gfam.LeafFn
 		ts = append(ts, gfam.Terms(1, leaves)...)
 		ts = append(ts, gfam.Terms(2, leaves)...)
@@ -317,8 +320,11 @@ func runC08(w *hx.Worker, mk func() *recGrammar, onlyKey string) {
 		if expected {
 			w.Violate(hx.Violation{Key: key + fmt.Sprintf(" :: in=%q", tripped), Class: "left-recursive-grammar-accepted", Detail: map[string]any{"cycle": cyc, "witness_input": tripped, "note": "Parse recursed deeper than 40*(len+2) frames without consuming input"}})
 		} else {
-			// the decision procedure is wrong: internal error of the check, never a VIOLATION of the property
-			panic(fmt.Sprintf("C08 decision procedure says not left-recursive but parsing %q recursed without bound: %s", tripped, key))
+			// The recursion guard is a witness of its own: the trace went deeper than 40*(len+2) levels, more than
+			// the grammar's few productions can nest between two consumed tokens. Either the decision procedure
+			// overlooks a way of matching nothing (then Build overlooked it too), or the parser re-enters a
+			// production without having advanced although the grammar says it must have.
+			w.Violate(hx.Violation{Key: key + fmt.Sprintf(" :: in=%q", tripped), Class: "accepted-grammar-recurses-without-consuming", Detail: map[string]any{"witness_input": tripped, "note": "Build accepted the grammar, the independent decision procedure finds no left recursion either, and Parse recursed deeper than 40*(len+2) frames"}})
 		}
 		return
 	}
